@@ -351,7 +351,7 @@ _RULE_ADDENDA = {
     "C16": " Plus six refused collection shapes (no y, threshold 0, sub-threshold, ...) each followed at once by an honest recovery, "
            "an every-threshold sweep (t independent share() calls, t = 1..320, thorough 1..1400), and shares of the same sharing on chosen "
            "structured points incl. pairs congruent mod 2^128.",
-    "C17": " Plus empty vs NUL measurements and an every-threshold sweep (1..160, thorough 1..1400).",
+    "C17": " Plus empty vs NUL measurements and an every-threshold sweep (1..700, thorough 1..1400).",
     "C18": " Plus sibling measurements differing in trailing zeros, long aux, and a poisoned batch on the same server object before the "
            "honest runs; every small batch composition around the threshold ([t], [t-1], [t+1], [t,1], t singletons, [t,t], ...; t = 1..8); "
            "epochs with edge white space, multi-byte characters, 200+ bytes.",
